@@ -107,7 +107,7 @@ def harness_bin(names, mode):
     hs = [os.path.join(VERIF, 'harness', n + '.cc') for n in names]
     hdrs = glob.glob(os.path.join(VERIF, 'symrt', '*.hh')) + glob.glob(os.path.join(VERIF, 'oracle', '*.hh')) + glob.glob(os.path.join(VERIF, 'harness', '*.hh'))
     incs = Z3INC + ['-I' + os.path.join(VERIF, 'symrt'), '-I' + os.path.join(VERIF, 'oracle'), '-I' + os.path.join(VERIF, 'harness'),
-            '-I' + REPO, '-I' + os.path.join(REPO, 'src')]
+            '-I' + REPO, '-I' + os.path.join(REPO, 'src'), '-I' + os.path.join(REPO, 'interfaces')]
     if mode == 'sym':
         incs = ['-I' + os.path.join(VERIF, 'symgmp')] + incs
     interfaces = any('C20' in n for n in names)
